@@ -568,6 +568,9 @@ def lift_program(rng: random.Random, prog: list, v0: dict, names: dict, p: float
             op["phase"] = L(op["phase"])
             if "pps" in op:
                 op["pps"] = L(op["pps"])
+        elif k == "target_index" and "ks" in names and isinstance(op["qubits"], int) and op["qubits"] == int(v0["ks"][0]) and rng.random() < 0.8:
+            # a SLICE of an integer array variable as the target indices
+            op["qubits"] = {"e": "arr", "name": "ks", "sl": G.pick(rng, [[0, 1], [None, 2], [1, None]])}
         elif k == "target_index" and "k" in names and isinstance(op["qubits"], int) and rng.random() < p:
             op["qubits"] = {"e": "bin", "op": "+", "a": {"e": "var", "name": "k"}, "b": op["qubits"] - int(v0["k"])}
         out.append(op)
@@ -645,12 +648,16 @@ def gen_template_world(seed: int, prop: str, run: int, profile: dict) -> dict:
         if vr.random() < p_decl:
             names[name] = True
             variables.append({"name": name, "int": is_int, "size": size, "array": size > 1})
+    tidx = [o["qubits"] for o in prog if o["op"] == "target_index" and isinstance(o.get("qubits"), int)]
+    if tidx and vr.random() < 0.6:
+        names["ks"] = True
+        variables.append({"name": "ks", "int": True, "size": 2, "array": True})
     lcm = 8
     a0 = round(vr.uniform(0.6, 2.5), 3)
     n0 = G.pick(vr, [48, 96, 104, 200])
     arr0 = [round(vr.uniform(0.5, 3.0), 3) for _ in range(3)]
     nq = len(reg["ids"])
-    base = {"a": a0, "n": n0, "arr": arr0, "k": vr.randrange(nq)}
+    base = {"a": a0, "n": n0, "arr": arr0, "k": vr.randrange(nq), "ks": [tidx[0], tidx[0]] if tidx else [0, 0]}
     v0 = {k: v for k, v in base.items() if k in names}
     assigns = [v0]
     for _ in range(vr.randint(1, 3)):
@@ -663,6 +670,9 @@ def gen_template_world(seed: int, prop: str, run: int, profile: dict) -> dict:
             alt["arr"] = [round(x * G.pick(vr, [1.0, 0.9, 0.5]), 3) for x in arr0]
         if "k" in names:
             alt["k"] = G.pick(vr, [base["k"], (base["k"] + 1) % nq])
+        if "ks" in names:
+            q2 = G.pick(vr, [base["ks"][0], (base["ks"][0] + 1) % nq])
+            alt["ks"] = [q2, q2]
         assigns.append(alt)
     # 3. lift numeric positions into expressions
     lp = profile.get("lift_p", 0.45)
